@@ -449,6 +449,7 @@ def run(rep: core.Report):
     from rules import shared_viewupdate
 
     shared_viewupdate.run(rep, "R15i", ["phonopy/harmonic/dynamical_matrix.py", "phonopy/harmonic/derivative_dynmat.py", "phonopy/harmonic/force_constants.py", "phonopy/harmonic/dynmat_to_fc.py", "phonopy/api_phonopy.py", "phonopy/structure/atoms.py"])
+    _r15j(rep)
     shared_freshwrite.run(rep, "R15g", ["phonopy/harmonic/dynamical_matrix.py", "phonopy/phonon/group_velocity.py", "phonopy/harmonic/derivative_dynmat.py"], 2)
 
 
@@ -482,11 +483,70 @@ def _r15h(rep):
                      f"the private method {bad[0][0].name if bad else ''} assigns the configuration attribute self.{attr} ('{core.norm(core.src(bad[0][1]), 70) if bad else ''}'): a value derived from the current state replaces what the user configured and stays when the state changes; an object that went through that state differs from a fresh one with the same final state", line=bad[0][1].lineno if bad else init.lineno)
 
 
+def _r15j(rep):
+    """Which force constants the batch solver hands to the kernel: decided by the call, not by what was built before."""
+    import itertools
+
+    from engine import pyeval
+
+    PYDM = "phonopy/harmonic/dynamical_matrix.py"
+    rep.rule("R15j", "force constants handed to the compiled solver, evaluated over (is_nac argument None / False / True) x (Gonze-Lee / Wang) x (short-range dataset already built / not yet): the short-range force constants go to the kernel exactly when this call asks for the non-analytical term with the Gonze-Lee method, the full ones otherwise -- whether an earlier query has already built the dataset makes no difference (the zone-centre evaluation without direction runs with is_nac=False)", 12)
+    tree = core.parse(PYDM)
+    fn = core.find_def(PYDM, "run_dynamical_matrix_solver_c")
+    pn = [a.arg for a in fn.args.args]
+    if "is_nac" not in pn:
+        raise AnalysisError("R15j: run_dynamical_matrix_solver_c lost its parameter 'is_nac'")
+    kcalls = [c for c in ast.walk(fn) if isinstance(c, ast.Call) and core.src(c.func).startswith("phonoc.")]
+    if len(kcalls) != 1:
+        raise AnalysisError(f"R15j: {len(kcalls)} kernel calls in run_dynamical_matrix_solver_c")
+    kname = core.src(kcalls[0].func)
+
+    class _Stop(Exception):
+        def __init__(self, args):
+            self.args_ = args
+
+    for arg, method, built in itertools.product((None, False, True), ("gonze", "wang"), (False, True)):
+        state = {"built": built}
+
+        def dataset(_base=None):
+            return ["SHORT_RANGE_FC" if state["built"] else None, "dd_q0", "Gc", "G_list", "Lambda"]
+
+        def make(*a, **k):
+            state["built"] = True
+            return None
+
+        def kernel(*a, **k):
+            raise _Stop(a)
+
+        hooks = {"isinstance": lambda *a: False, "call:is_nac": lambda: True, "attr:nac_method": method, "attr:Gonze_nac_dataset": dataset, "call:make_Gonze_nac_dataset": make,
+                 "attr:force_constants": "FULL_FC", "attr:store_dense_svecs": True, "call:get_smallest_vectors": lambda: ["svecs", "multi"],
+                 "_get_fc_elements_mapping": lambda *a: ["p2s", "s2p"], "sparse_to_dense_svecs": lambda *a: ["svecs", "multi"], kname: kernel, "len": lambda x: pyeval.Opaque("len", (repr(x),))}
+        E = pyeval.Evaluator(tree, hooks=hooks, where="run_dynamical_matrix_solver_c")
+        try:
+            E.call(fn, [pyeval.Opaque("dm"), pyeval.Opaque("qpoints")], {"is_nac": arg})
+            raise AnalysisError("R15j: the kernel call is not reached")
+        except _Stop as st:
+            passed = st.args_
+        except pyeval.Unknown as ex:
+            raise AnalysisError(f"R15j: run_dynamical_matrix_solver_c cannot be evaluated ({ex})")
+        except pyeval.Raised as ex:
+            raise AnalysisError(f"R15j: run_dynamical_matrix_solver_c raises {ex} on the evaluated path")
+        eff = True if arg is None else arg
+        want = "SHORT_RANGE_FC" if (eff and method == "gonze") else "FULL_FC"
+        got = [x for x in passed if x in ("SHORT_RANGE_FC", "FULL_FC")]
+        ok = got == [want]
+        rep.instance("R15j", PYDM, "run_dynamical_matrix_solver_c", f"is_nac={arg}, method {method}, dataset {'built' if built else 'not built'}: kernel receives {got}", ok,
+                     f"with is_nac={arg} and the {method} method the kernel receives {got or 'no force constants'} {'when' if built else 'before'} the short-range dataset has been built, instead of {want}: " + ("a zone-centre evaluation (is_nac=False) made after any other NAC query on the same object uses force constants with the dipole-dipole part removed, so the result depends on the order of the queries" if want == "FULL_FC" else "the non-analytical term is added to the wrong force constants"), line=fn.lineno)
+
+
 def selftest():
     V = []
     b = lambda name, file, old, new, rule, expect="", **kw: V.append(dict(name=name, kind="break", file=file, old=old, new=new, rule=rule, expect=expect, **kw))
     n = lambda name, file, old, new, **kw: V.append(dict(name=name, kind="neutral", file=file, old=old, new=new, **kw))
     FCF_ = "phonopy/harmonic/force_constants.py"
+    PYDM_ = "phonopy/harmonic/dynamical_matrix.py"
+    b("batch solver picks the force constants by the object's NAC state instead of the call's flag", PYDM_, "    use_Wang_NAC = False\n    if _is_nac:\n        if dm.nac_method == \"gonze\":", "    use_Wang_NAC = False\n    if dm.is_nac():\n        if dm.nac_method == \"gonze\":", "R15j", "run_dynamical_matrix_solver_c")
+    n("batch solver: method test with the sides exchanged", PYDM_, "    if _is_nac:\n        if dm.nac_method == \"gonze\":", "    if _is_nac:\n        if \"gonze\" == dm.nac_method:")
     b("drift report transposes a conditional copy of the caller's compact force constants", FCF_, "            phonoc.transpose_compact_fc(\n                force_constants, permutations, s2pp_map, p2s_map, nsym_list\n            )\n            maxval1, jk1 = _get_drift_per_index(force_constants)\n            phonoc.transpose_compact_fc(\n                force_constants, permutations, s2pp_map, p2s_map, nsym_list\n            )\n            maxval2, jk2 = _get_drift_per_index(force_constants)", "            fc = np.ascontiguousarray(force_constants, dtype=\"double\")\n            maxval2, jk2 = _get_drift_per_index(fc)\n            phonoc.transpose_compact_fc(fc, permutations, s2pp_map, p2s_map, nsym_list)\n            maxval1, jk1 = _get_drift_per_index(fc)", "R15f", "show_drift_force_constants")
     n("drift report transposes a private copy", FCF_, "            phonoc.transpose_compact_fc(\n                force_constants, permutations, s2pp_map, p2s_map, nsym_list\n            )\n            maxval1, jk1 = _get_drift_per_index(force_constants)\n            phonoc.transpose_compact_fc(\n                force_constants, permutations, s2pp_map, p2s_map, nsym_list\n            )\n            maxval2, jk2 = _get_drift_per_index(force_constants)", "            fc = np.array(force_constants, dtype=\"double\", order=\"C\")\n            maxval2, jk2 = _get_drift_per_index(fc)\n            phonoc.transpose_compact_fc(fc, permutations, s2pp_map, p2s_map, nsym_list)\n            maxval1, jk1 = _get_drift_per_index(fc)")
     b("group-velocity step written back by the rebuild", "phonopy/api_phonopy.py", "        self._group_velocity = GroupVelocity(\n            self._dynamical_matrix,\n            q_length=self._gv_delta_q,\n            symmetry=self._primitive_symmetry,\n            frequency_factor_to_THz=self._factor,\n        )\n", "        self._group_velocity = GroupVelocity(\n            self._dynamical_matrix,\n            q_length=self._gv_delta_q,\n            symmetry=self._primitive_symmetry,\n            frequency_factor_to_THz=self._factor,\n        )\n        if self._gv_delta_q is None:\n            self._gv_delta_q = self._group_velocity.q_length\n", "R15h", "_gv_delta_q")
